@@ -109,3 +109,31 @@
 		enc.Encode(map[string]any{"kind": "fn", "class": "f10-global", "got": FullName(w.pkg(dotted), q[2]),
 			"ent": map[string]any{"k": "global", "pkg": dotted, "name": q[2]}})
 	}
+
+
+	// (5) generic functions, closures in them and methods of generic receivers instantiated with the
+	// boundary pairs of (5) above: the entities differ only in the type argument
+	for vn, xs := range variants {
+		for sn, sh := range shapes {
+			for _, x := range xs {
+				t := sh(x)
+				tt := []types.Type{w.conv(t)}
+				cls := "pair:" + vn + ":" + sn
+				pg := w.pkg("x/g")
+				enc.Encode(map[string]any{"kind": "fn", "class": cls, "got": FuncName(pg, "F"+TypeArgs(tt), nil, false),
+					"ent": map[string]any{"k": "func", "pkg": "x/g", "name": "F", "clos": nil, "targs": c14targs([]*c14ty{t})}})
+				enc.Encode(map[string]any{"kind": "fn", "class": cls, "got": FuncName(pg, "F$1"+TypeArgs(tt), nil, false),
+					"ent": map[string]any{"k": "func", "pkg": "x/g", "name": "F", "clos": []int{1}, "targs": c14targs([]*c14ty{t})}})
+				rt := &c14ty{K: c14Named, HasPkg: true, Pkg: "x/g", Name: "G", Targs: []*c14ty{t}}
+				for _, ptr := range []bool{false, true} {
+					rtyp := w.conv(rt)
+					if ptr {
+						rtyp = types.NewPointer(rtyp)
+					}
+					recv := types.NewVar(token.NoPos, pg, "r", rtyp)
+					enc.Encode(map[string]any{"kind": "fn", "class": cls, "got": FuncName(pg, "Get", recv, false),
+						"ent": map[string]any{"k": "method", "pkg": "x/g", "ptr": ptr, "tname": "G", "rtargs": c14targs(rt.Targs), "name": "Get", "clos": nil}})
+				}
+			}
+		}
+	}
